@@ -30,6 +30,8 @@ type world interface {
 	harnessErr() string
 	warning() string
 	warningOp() string
+	contentSig() string
+	repOps() (ops []Op, skippedKnownFamily int)
 }
 
 func (w *vworld) harnessErr() string { return w.herr }
@@ -48,7 +50,23 @@ type Config struct {
 	Values2  bool   `json:"values01,omitempty"` // matrix element values restricted to {0,1}
 	Thorough bool   `json:"thorough_menus"`     // operand menus of the thorough tier
 	Post     int    `json:"post_append_depth"`  // <0: unbounded (fixpoint); otherwise ops explored after the first Append
+	Large    bool   `json:"large,omitempty"`            // vector: ONE start dimension N, reduced alphabet of large.go
+	Z        int    `json:"max_stored_zeros,omitempty"` // large: bound on the stored zeros
+	Joint    bool   `json:"joint,omitempty"`                 // one live joint iterator, reduced alphabet of joint.go (vector: ONE dimension N)
+	JForms   []int  `json:"joint_forms,omitempty"`           // 0 JointIterator, 1 ConstJointIterator, 2 JOINT_ITERATOR_
+	JMut     bool   `json:"joint_operand_mutable,omitempty"` // the sparse operand is mutated while the iterator is live
 	cost     int
+}
+
+func (cfg Config) label() string {
+	l := fmt.Sprintf("%s|%s|n<=%d|%dx%d|v01=%v|slots=%d", cfg.Kind, cfg.Elem, cfg.N, cfg.Rows, cfg.Cols, cfg.Values2, cfg.Slots)
+	if cfg.Large {
+		l = fmt.Sprintf("large-vector|%s|n=%d|stored-zeros<=%d|slots=%d", cfg.Elem, cfg.N, cfg.Z, cfg.Slots)
+	}
+	if cfg.Joint {
+		l = fmt.Sprintf("joint-%s|%s|n=%d|%dx%d|forms=%v|operand-mutable=%v", cfg.Kind, cfg.Elem, cfg.N, cfg.Rows, cfg.Cols, cfg.JForms, cfg.JMut)
+	}
+	return l
 }
 
 type Case struct {
@@ -70,9 +88,12 @@ func build(cfg Config, hist []Op, quiet bool, warn, warnOp string) world {
 	switch cfg.Kind {
 	case "vector":
 		v := newVWorld(e, cfg.Slots, cfg.N)
+		v.large, v.maxZ = cfg.Large, cfg.Z
+		v.joint, v.jforms, v.jmut = cfg.Joint, cfg.JForms, cfg.JMut
 		w, b = v, &v.base
 	case "matrix":
 		m := newMWorld(e, cfg.Slots)
+		m.joint, m.jforms, m.jmut = cfg.Joint, cfg.JForms, cfg.JMut
 		w, b = m, &m.base
 	default:
 		panic("unknown kind " + cfg.Kind)
@@ -110,11 +131,34 @@ func runOracles(n world) *failure {
 	return n.failed()
 }
 
+// runAll: the complete oracle for the state n reached by hist. Joint configurations
+// additionally continue the live joint iterator on a second replay instance WITHOUT the
+// purging fresh iteration of the first pass.
+func runAll(cfg Config, hist []Op, n world, quiet bool, warn, warnOp string) *failure {
+	f := runOracles(n)
+	if f == nil && cfg.Joint {
+		n2 := build(cfg, hist, quiet, warn, warnOp)
+		n2.oracleLive()
+		f = n2.failed()
+		if he := n2.harnessErr(); he != "" && f == nil {
+			f = &failure{key: "harness", what: he}
+		}
+	}
+	return f
+}
+
 type item struct {
 	hist         []Op
 	post         int // -1: no Append yet; otherwise number of ops since the first Append
 	warn, warnOp string
+	rep          bool // first state reached with its content signature: also gets the repOps
+	age          int  // operations executed since the private state first became incoherent (0 while coherent)
 }
+
+// large configurations: a state whose private state is incoherent (map and index disagree:
+// the early warning) is expanded for at most this many further operations. On a library
+// that keeps map and index coherent the bound is never reached.
+const largeIncoherentDepth = 3
 
 type succ struct {
 	op           Op
@@ -124,6 +168,11 @@ type succ struct {
 	warn, warnOp string
 	herr         string
 	outcome      string
+	age          int
+	capped       bool   // pseudo entry: the state was not expanded (largeIncoherentDepth)
+	sig          string // content signature of the successor state
+	skipped      int    // (first entry only) slice writers not enumerated: known family
+	repOp        bool
 }
 
 // expand computes all successors of one state (runs concurrently with other expansions;
@@ -133,7 +182,21 @@ func expand(cfg Config, it item) (out []succ) {
 	if he := w.harnessErr(); he != "" {
 		return []succ{{herr: he}}
 	}
-	for _, o := range w.enabled() {
+	if cfg.Large && it.warn != "" && it.age >= largeIncoherentDepth {
+		return []succ{{capped: true}}
+	}
+	ops := w.enabled()
+	nOrd := len(ops)
+	skipped := 0
+	if it.rep && os.Getenv("VERIF_C11_NOREP") == "" {
+		var extra []Op
+		extra, skipped = w.repOps()
+		if he := w.harnessErr(); he != "" {
+			return []succ{{herr: he}}
+		}
+		ops = append(ops, extra...)
+	}
+	for oi, o := range ops {
 		post := it.post
 		if post >= 0 || isAppend(o) {
 			post++
@@ -145,12 +208,19 @@ func expand(cfg Config, it item) (out []succ) {
 		}
 		hist := append(append(make([]Op, 0, len(it.hist)+1), it.hist...), o)
 		n := build(cfg, hist, true, it.warn, it.warnOp)
-		s := succ{op: o, post: post, key: n.canon()}
+		s := succ{op: o, post: post, key: n.canon(), repOp: oi >= nOrd}
+		if len(out) == 0 {
+			s.skipped = skipped
+		}
 		if n.failed() == nil {
 			s.outcome = n.outcome()
+			s.sig = n.contentSig()
 		}
-		s.fail = runOracles(n)
+		s.fail = runAll(cfg, hist, n, true, it.warn, it.warnOp)
 		s.warn, s.warnOp = n.warning(), n.warningOp()
+		if it.warn != "" {
+			s.age = it.age + 1
+		}
 		s.herr = n.harnessErr()
 		out = append(out, s)
 	}
@@ -161,16 +231,21 @@ var pool = make(chan struct{}, 16)
 
 func explore(c *vf.Ctx, cfg Config) {
 	seen := map[string]int{} // key -> smallest post value it was queued with (-1 = unbounded)
+	repSeen := map[string]bool{} // content signatures that have their representative state
 	var frontier []item
-	var states int64
+	seenAge := map[string]int{}
+	var states, reps, repTrans, skippedKnown, cappedIncoherent int64
 	for _, o := range initOps(cfg) {
 		h := []Op{o}
-		seen[build(cfg, h, true, "", "").canon()] = -1
-		frontier = append(frontier, item{h, -1, "", ""})
+		w0 := build(cfg, h, true, "", "")
+		seen[w0.canon()] = -1
+		repSeen[w0.contentSig()] = true
+		frontier = append(frontier, item{h, -1, "", "", true, 0})
 		states++
+		reps++
 	}
 	depth := 0
-	label := fmt.Sprintf("%s|%s|n<=%d|%dx%d|v01=%v|slots=%d", cfg.Kind, cfg.Elem, cfg.N, cfg.Rows, cfg.Cols, cfg.Values2, cfg.Slots)
+	label := cfg.label()
 	const batch = 64
 	for len(frontier) > 0 {
 		var next []item
@@ -199,10 +274,18 @@ func explore(c *vf.Ctx, cfg Config) {
 					c.HarnessError(s.herr + " in " + histString(it.hist) + " ; " + s.op.String())
 					return
 				}
+				if s.capped {
+					cappedIncoherent++
+					continue
+				}
 				hist := append(append(make([]Op, 0, len(it.hist)+1), it.hist...), s.op)
 				c.Trans(1)
 				c.Eval(1)
 				c.Traces(1)
+				skippedKnown += int64(s.skipped)
+				if s.repOp {
+					repTrans++
+				}
 				if s.fail != nil {
 					what := s.fail.what + " -- history: " + histString(hist)
 					if s.warn != "" {
@@ -213,7 +296,7 @@ func explore(c *vf.Ctx, cfg Config) {
 					continue // never explore beyond a failing state
 				}
 				c.Outcome(s.outcome)
-				if old, ok := seen[s.key]; !ok || s.post < old {
+				if old, ok := seen[s.key]; !ok || s.post < old || cfg.Large && s.age < seenAge[s.key] {
 					if !ok {
 						states++
 						// a new state: replaying its history once more must give the same state
@@ -226,7 +309,14 @@ func explore(c *vf.Ctx, cfg Config) {
 						}
 					}
 					seen[s.key] = s.post
-					next = append(next, item{hist, s.post, s.warn, s.warnOp})
+					seenAge[s.key] = s.age
+					isRep := false
+					if !ok && !repSeen[s.sig] {
+						repSeen[s.sig] = true
+						isRep = true
+						reps++
+					}
+					next = append(next, item{hist, s.post, s.warn, s.warnOp, isRep, s.age})
 				}
 			}
 			results[i] = nil
@@ -249,10 +339,21 @@ func explore(c *vf.Ctx, cfg Config) {
 	c.Nontrivial(states)
 	c.Count("states:"+label, states)
 	c.Count("bfs_depth:"+label, int64(depth))
+	c.Count("content_representatives:"+label, reps)
+	c.Count("transitions_from_representatives_only(slice-writers,operand-arithmetic):"+label, repTrans)
+	if cappedIncoherent > 0 {
+		c.Count("large: incoherent states not expanded beyond 3 further operations", cappedIncoherent)
+	}
+	if skippedKnown > 0 {
+		c.Count("slice_writers_not_enumerated(known family: non-zero into a cell the parent vector does not store)", skippedKnown)
+	}
 }
 
 func initOps(cfg Config) []Op {
 	var r []Op
+	if cfg.Kind == "vector" && (cfg.Large || cfg.Joint) {
+		return []Op{{C: "init", I: cfg.N}}
+	}
 	if cfg.Kind == "vector" {
 		// largest first, so that witnesses prefer init(n)+writes over chains of Append
 		for n := cfg.N; n >= 0; n-- {
@@ -281,6 +382,42 @@ func configs(thorough bool) []Config {
 			}
 		} else {
 			cfgs = append(cfgs, Config{Kind: "vector", Elem: e.name, N: 3, Slots: 1, Post: -1, cost: 6000})
+		}
+		// large containers (large.go): index trees of depth >= 3 with deletions of inner nodes
+		if thorough {
+			if main3 {
+				cfgs = append(cfgs, Config{Kind: "vector", Elem: e.name, N: 8, Large: true, Z: 2, Thorough: true, Post: -1, cost: 90000})
+				cfgs = append(cfgs, Config{Kind: "vector", Elem: e.name, N: 7, Large: true, Z: 1, Slots: 1, Thorough: true, Post: -1, cost: 60000})
+			}
+			if ei == 0 {
+				cfgs = append(cfgs, Config{Kind: "vector", Elem: e.name, N: 10, Large: true, Z: 1, Thorough: true, Post: -1, cost: 200000})
+			}
+		} else if ei == 0 {
+			cfgs = append(cfgs, Config{Kind: "vector", Elem: e.name, N: 8, Large: true, Z: 1, Post: -1, cost: 20000})
+		} else if ei == 1 {
+			cfgs = append(cfgs, Config{Kind: "vector", Elem: e.name, N: 7, Large: true, Z: 1, Post: -1, cost: 8000})
+		}
+		// live joint iterators interleaved with mutation (joint.go)
+		if thorough {
+			if main3 {
+				cfgs = append(cfgs, Config{Kind: "vector", Elem: e.name, N: 3, Joint: true, JForms: []int{jfInterface, jfConst, jfConcrete}, JMut: true, Thorough: true, Post: -1, cost: 30000})
+				cfgs = append(cfgs, Config{Kind: "matrix", Elem: e.name, Rows: 1, Cols: 3, Values2: true, Joint: true, JForms: []int{jfInterface}, JMut: true, Thorough: true, Post: -1, cost: 30000})
+				cfgs = append(cfgs, Config{Kind: "matrix", Elem: e.name, Rows: 2, Cols: 2, Values2: true, Joint: true, JForms: []int{jfInterface}, Thorough: true, Post: -1, cost: 5000})
+			} else {
+				cfgs = append(cfgs, Config{Kind: "vector", Elem: e.name, N: 2, Joint: true, JForms: []int{jfInterface, jfConst, jfConcrete}, JMut: true, Thorough: true, Post: -1, cost: 1000})
+				cfgs = append(cfgs, Config{Kind: "matrix", Elem: e.name, Rows: 1, Cols: 2, Values2: true, Joint: true, JForms: []int{jfInterface}, JMut: true, Thorough: true, Post: -1, cost: 1000})
+			}
+			if ei == 0 {
+				cfgs = append(cfgs, Config{Kind: "vector", Elem: e.name, N: 4, Joint: true, JForms: []int{jfInterface, jfConcrete}, JMut: true, Thorough: true, Post: -1, cost: 200000})
+				cfgs = append(cfgs, Config{Kind: "matrix", Elem: e.name, Rows: 2, Cols: 2, Values2: true, Joint: true, JForms: []int{jfInterface}, JMut: true, Thorough: true, Post: -1, cost: 100000})
+			}
+		} else if ei < 2 { // Float64 and Real64: one type per template
+			cfgs = append(cfgs, Config{Kind: "vector", Elem: e.name, N: 2, Joint: true, JForms: []int{jfInterface, jfConcrete}, JMut: true, Post: -1, cost: 1000})
+			cfgs = append(cfgs, Config{Kind: "vector", Elem: e.name, N: 3, Joint: true, JForms: []int{jfInterface, jfConcrete}, Post: -1, cost: 5000})
+			cfgs = append(cfgs, Config{Kind: "matrix", Elem: e.name, Rows: 1, Cols: 2, Values2: true, Joint: true, JForms: []int{jfInterface}, JMut: true, Post: -1, cost: 1000})
+			if ei == 0 {
+				cfgs = append(cfgs, Config{Kind: "matrix", Elem: e.name, Rows: 2, Cols: 2, Values2: true, Joint: true, JForms: []int{jfInterface}, Post: -1, cost: 5000})
+			}
 		}
 		// matrices: (rows, cols, values restricted to {0,1}, iterator slots)
 		type shp struct {
@@ -313,6 +450,8 @@ func main() {
 		Rule: "explicit-state BFS to fixpoint over REAL sparse vectors (start: the empty vector of every dimension 0..n; Append is a transition into the larger dimension, capped at n) and REAL sparse matrices (one exploration per shape; T/Tip change the orientation): " +
 			"every operation of the alphabet (At, At.SetFloat64, Set/SET with dense+sparse operands, Reset, Swap, Permute for all permutations, Sort, ReverseOrder, Slice then write through the slice, AppendScalar/AppendVector, value-preserving VmulV/VsubV/VaddV/VmulS with the vector as receiver, full Iterator/IteratorFrom/JointIterator walks, Clone, opening/advancing/dropping a live iterator; matrices: At, Set, Reset, SetIdentity, Swap, SwapRows/Columns, Permute*, T, Tip, Slice(+write), Row/Col/ConstRow/Diag, iterators) from every reachable state; " +
 			"a state is distinct by its canonical form = dense model + private state read through the overlay (key set of the values map with stored-zero / nil-placeholder / alias flags, index tree keys + shape and balance factors) + fields of the live iterators; " +
+			"SLICES AS RECEIVERS and the container AS OPERAND (views.go), from one representative state -- the first the BFS reaches -- of every distinct content (vectors and matrices of at most 4 cells: model values + storage class absent/stored zero/non-zero of every position + key set of the index; larger matrices: non-zero pattern of the model [quick] / storage-class pattern [thorough]; dimensions/orientation always): every window Slice(i,j) / Slice(r0,r1,c0,c1) incl. those anchored at the origin and the full window x every whole-container writer with the slice as receiver (vectors: Reset, Set, VmulS(s,s,0|1), Map, MapSet, VaddV(s,w,0), VmulV(s,s,mask); matrices: Reset, SetIdentity, Set, MdotM, Outer, Map, MapSet, MmulS, MsubM, MmulM; dense and sparse operands from the menus), then the slice must read as the reference says, the views of other windows TAKEN BEFORE the writer (full window + the complements of the written window; thorough, containers of at most 4 cells: all windows) must read as the model says, then the ordinary oracles judge the PARENT and finally every view is iterated and read again; the vector as operand of VaddV/VmulV/Set/Equals into fresh sparse and dense receivers (result = model, result iteration = non-zero positions); " +
+			"LARGE CONTAINERS (large.go): one sparse vector of dimension 8 (Float64) / 7 (Real64) [thorough: 8 with <=2 stored zeros and 7 with a live iterator for three element types, 10 for Float64], values {0,1}, BFS to fixpoint over (key subset, index tree shape with balance factors, stored-zero set) -- every tree shape insertions and deletions can produce, not every insertion order -- with the alphabet At.SetFloat64(1|0) at every position (a new stored zero only while at most Z are stored), the purging operations Iterator/IteratorFrom(i)/JointIterator walks and the operand arithmetic, Swap(i,j) with at least one stored position (entry moves = index delete + insert), Reset and VmulS(x,x,0) (bulk zeroing; from a state with more than Z stored zeros only the purging operations are enabled, so one iteration deletes up to n index entries), Clone, live iterators where slots>0; " +
 			"every transition is executed on the implementation by replaying the shortest history on a fresh instance and then checked through the public API only: every typed read of every position, Dim, a fresh full iteration (exactly the non-zero positions, ascending, once, true values), continuation of the live iterators; states that fail are not expanded",
 		Assume: []string{
 			"element values {-1,0,1,2} (vectors), {0,1,2} or {0,1} (matrices); derivatives of Real types are not used",
@@ -320,6 +459,9 @@ func main() {
 			"a live iterator that saw Swap/Permute/Sort/ReverseOrder/Tip is only required to stay safe (no panic, terminates, ascending, reports positions that hold the reported non-zero value, container intact): an implementation may rebuild its index wholesale there; after element writes, Set, Reset, arithmetic and foreign walks it must continue over exactly the non-zero positions beyond its own",
 			"ReverseOrder and T rebuild the index in Go map order: from then on the tree shape is not part of the state key (its key set is) and iterators left behind in such a tree by a reordering operation are not followed; matrix state keys never contain the tree shape (covered by the vector explorations)",
 			"overlay accessors are read-only and used for state keys / early-warning annotations only; private incoherence alone is never a verdict",
+			"a sparse VECTOR slice is not a view: it shares the stored scalars of its parent only (known open finding Slice+write|vector|...|parent-cell=absent), and a stored zero is dropped from the slice by the slice's own purging iterators before an iterating writer reaches it; slice writers that must produce a non-zero value at a position where the parent holds no non-zero entry are manifestations of that finding and are not enumerated (counted in slice_writers_not_enumerated); sparse MATRIX slices are views and get every writer",
+			"slice writers and operand arithmetic depend on the cell contents, not on index shape or iterator fields: they are run from one representative state per content signature (counted in content_representatives), all other operations from every state",
+			"large containers: a state whose private state is incoherent (map and index disagree: the early warning) is expanded for at most 3 further operations (never reached on a library that keeps them coherent; counted when it happens); Permute/Sort/ReverseOrder/Append/slices/masks are left to the small explorations there",
 		},
 		// vf measures the soft limit in CPU time of the worker process; this check runs as ONE
 		// worker with 16 threads, so the limits are about 12 busy threads x (100 s | 13 min)
@@ -332,12 +474,15 @@ func main() {
 			if f := os.Getenv("VERIF_C11_ONLY"); f != "" { // development aid: restrict to matching configurations
 				var sel []Config
 				for _, cfg := range cfgs {
-					if strings.Contains(fmt.Sprintf("%s|%s|n<=%d|%dx%d|v01=%v|slots=%d", cfg.Kind, cfg.Elem, cfg.N, cfg.Rows, cfg.Cols, cfg.Values2, cfg.Slots), f) {
+					if strings.Contains(cfg.label(), f) {
 						sel = append(sel, cfg)
 					}
 				}
 				cfgs = sel
 				c.Cap("VERIF_C11_ONLY restricts the configurations")
+			}
+			if os.Getenv("VERIF_C11_NOREP") != "" { // development aid (cost measurements)
+				c.Cap("VERIF_C11_NOREP disables the slice-writer / operand operations")
 			}
 			sort.SliceStable(cfgs, func(a, b int) bool { return cfgs[a].cost > cfgs[b].cost })
 			var wg sync.WaitGroup
@@ -368,7 +513,7 @@ func main() {
 					fmt.Fprintf(os.Stderr, "after %d ops: %s\n", k+1, build(cs.Cfg, cs.Hist[:k+1], false, "", "").canon())
 				}
 			}
-			f := runOracles(n)
+			f := runAll(cs.Cfg, cs.Hist, n, false, "", "")
 			warn := n.warning()
 			if he := n.harnessErr(); he != "" {
 				c.HarnessError(he)
